@@ -39,7 +39,7 @@ var (
 	dynSlice  = make([]int, 3)
 	dynIdx    = 5
 	dynPtr    *customStruct
-	dynZero   = 0
+	dynZero       = 0
 	dynAny    any = "str"
 )
 
